@@ -83,8 +83,8 @@ CHECKS = {
     "C16": dict(
         category="translation_validation", design_ref="DESIGN.md §2.2, §3.8, §4 C16",
         technique="translation validation under a TLA+ operational semantics (Machine.tla gives scf.if/for/while and cf their own semantics); before/after programs of the real lowering / loop passes executed by TLC",
-        text="Generated programs with nested scf.for/scf.if, an exhaustive family of constant-bound loops (lb -2..3, ub -1..5, step 1..3), loop nests with used/unused induction variables and effects in the body, range-folding shapes with constant and symbolic factors, and affine.for / affine.apply programs (floor-based mod / floordiv / ceildiv over negative symbols) are run through convert-scf-to-cf, scf-for-loop-range-folding, scf-for-loop-flatten, licm, control-flow-hoist and lower-affine; TLC executes before/after on boundary/random inputs and compares results and the ordered effect log.",
-        note="Trusted: Machine.tla (incl. AffEval for affine.apply). scf-for-loop-unroll and frontend-desymrefy are not exercised; affine.if/load/store/parallel are not generated. Three open findings (range folding with non-positive factor, flatten with uneven trip counts, lower-affine mod of a negative value)."),
+        text="Generated programs with nested scf.for/scf.if, an exhaustive family of constant-bound loops (lb -2..3, ub -1..5, step 1..3), loop nests with used/unused induction variables and effects in the body, range-folding shapes with constant and symbolic factors, and affine.for / affine.apply programs (floor-based mod / floordiv / ceildiv over negative symbols) are run through convert-scf-to-cf, scf-for-loop-range-folding, scf-for-loop-flatten, licm, control-flow-hoist, lower-affine and scf-for-loop-unroll; TLC executes before/after on boundary/random inputs and compares results and the ordered effect log.",
+        note="Trusted: Machine.tla (incl. AffEval for affine.apply). frontend-desymrefy is not exercised; affine.if/load/store/parallel are not generated. Three open findings (range folding with non-positive factor, flatten with uneven trip counts, lower-affine mod of a negative value)."),
     "C04": dict(
         category="exploration", design_ref="DESIGN.md §3.2, §4 C04",
         technique="TLA+ model of printer name allocation (Naming.tla, Injective checked by TLC over every hint assignment) replayed on real IR, and TLC-judged structural equivalence (IRIso.tla) of original and re-parsed IR on the joint projection",
